@@ -845,6 +845,10 @@ func (d *docSpec) features(c pageCfg) []string {
 				// at worst one word per line.
 				if k := oofKind(in.style); k == "float" || k == "absolute" {
 					ih := len(wordLens(plainText(in))) * 10
+					if eff != "" && total+hgt+ih+oofSlack > pageH {
+						// inside an out-of-flow block (shrunk or narrow) the inner box can take a line of its own
+						set[eff+"-overflows-page"] = true
+					}
 					if ih > 10 && (hgt > pageH || total+hgt+oofSlack > pageH || total+hgt-10+ih+oofSlack > pageH) {
 						if eff != "" {
 							k = eff // the site of a flow nested in an out-of-flow block is the kind of that block
